@@ -202,6 +202,17 @@ def json_formats(repo, rep):
                 v = repo.const(fi.module, n.iter)
                 if isinstance(v, (list, tuple)) and "coords" in v:
                     return tuple(v)
+        # the same loop in its unrolled normal form: item__u0 = "coords"; ...; item__u1 = "data_vars"; ...
+        un = [(a_.lineno, a_.col_offset, a_.value.value) for a_ in ast.walk(fi.node) if isinstance(a_, ast.Assign) and isinstance(a_.value, ast.Constant)
+              and a_.value.value in ("coords", "data_vars", "attrs", "dims") and isinstance(a_.targets[0], ast.Name) and "__u" in a_.targets[0].id]
+        if un:
+            return tuple(x[2] for x in sorted(un))
+        # ... with the constant folded into its uses:  if 'time' in d['coords']: ...   if 'time' in d['data_vars']: ...
+        tst = [(t_.lineno, t_.col_offset, t_.test.comparators[0].slice.value) for t_ in ast.walk(fi.node) if isinstance(t_, ast.If) and isinstance(t_.test, ast.Compare)
+               and len(t_.test.ops) == 1 and isinstance(t_.test.ops[0], ast.In) and isinstance(t_.test.left, ast.Constant) and t_.test.left.value == repo.attrs.TIMENAME
+               and isinstance(t_.test.comparators[0], ast.Subscript) and isinstance(t_.test.comparators[0].slice, ast.Constant)]
+        if tst:
+            return tuple(x[2] for x in sorted(tst))
         return None
     if containers(w) == containers(r) == ("coords", "data_vars"):
         rep.ok("R-C11-3", f"{w.file} / {r.file}", "time converted in coords and data_vars on both sides", "same containers")
